@@ -81,6 +81,12 @@ def cases(tier, seed):
     for lay in ('csr', 'csc'):
         out.append({'prod': 'FS', 'shape': [2, 3], 'mask': 0b110111, 'rot': 0, 'layout': lay, 'obs_md': 'text',
                     'samp_md': 'text', 'header': 1, 'writer': 'to_hdf5_core', 'compress': True})
+    # GL: list / tuple values under a category name that is not reserved (the general formatter decides the type)
+    for kind in ('listgeneric', 'tuplegeneric'):
+        for lay in ('csr', 'csc'):
+            for w in DIRECT_WRITERS:
+                out.append({'prod': 'GL', 'shape': [3, 2], 'mask': 0b110111, 'rot': 0, 'layout': lay, 'obs_md': kind,
+                            'samp_md': kind, 'header': 1, 'writer': w, 'compress': True})
     for spec in e_spine(tier):
         for w in DIRECT_WRITERS:
             for comp in (True, False):
@@ -260,7 +266,9 @@ def check(case, acc, tmp):
         if is_nontrivial(case, src):
             acc.nontrivial.add(h64(json.dumps(case, sort_keys=True)))
         judge(art, src, acc, bad)
-        if case['prod'] != 'A' and w == 'to_hdf5':
+        # GL is judged on the file written from the caller's table only: the reader hands generic list categories
+        # back as padded arrays, which are outside the table domain (C01 excludes them) - see DESIGN section 10
+        if case['prod'] not in ('A', 'GL') and w == 'to_hdf5':
             second_generation(art, acc, bad)
     finally:
         if art is not None:
